@@ -648,8 +648,21 @@ impl expr::Expr
 						let right = propagate!(
 							right_expr.eval_with_ctx(report, ctx, provider)?);
 
-						let left_usize = left.expect_usize(report, span)? + 1;
+						let left_index = left.expect_usize(report, span)?;
 						let right_usize = right.expect_usize(report, span)?;
+
+						// `x[hi:lo]` needs `hi >= lo`; checking after the `+ 1` below
+						// would let `x[lo-1:lo]` through as an empty value
+						if left_index < right_usize
+						{
+							report.error_span(
+								"invalid slice range",
+								span);
+							
+							return Err(());
+						}
+
+						let left_usize = left_index + 1;
 
 						Ok(expr::Value::make_integer(
 							x.checked_slice(
